@@ -157,14 +157,19 @@ class HttpMonitor:
             res.problems.append('unexpected event type %r' % t)
 
 
+class TooManyEvents(Exception):
+    """Raised by the driver's send() when an app keeps sending (runaway stream)."""
+
+
 def run_asgi_http(app, scope, events=None, fail_send_at=None, fail_exc=OSError, stepper=None,
-                  max_steps=200000):
+                  max_steps=200000, max_events=100000):
     """Drive one HTTP request. events: receive script (http.request / http.disconnect dicts).
 
     When the script is exhausted receive() parks until the response is complete, then
     answers http.disconnect (ASGI spec); if the app is parked there with nothing else
     runnable and the response incomplete, the outcome is 'blocked'.
     fail_send_at=k: the k-th send() call (0-based, counting every event) raises fail_exc.
+    max_events: send() raises TooManyEvents (and a problem is recorded) beyond that many events.
     """
     st = stepper or aio.shared()
     res = AsgiResult()
@@ -198,6 +203,11 @@ def run_asgi_http(app, scope, events=None, fail_send_at=None, fail_exc=OSError, 
             if res.send_failed_at is None:
                 res.send_failed_at = k
             raise fail_exc('simulated send failure at event %d' % k)
+        if len(res.events) >= max_events:
+            msg = 'more than %d events sent' % max_events
+            if msg not in res.problems:
+                res.problems.append(msg)
+            raise TooManyEvents(msg)
         res.events.append(ev)
         mon.on_send(ev)
         if res.complete and state['closed'] is not None and not state['closed'].done():
